@@ -39,7 +39,7 @@ EmitMany == steps <= MaxSteps \/ PrintT(ToJson(hist))
    inbound PUBLISH at QoS 0..2 with duplicates, matching and non-matching topics             *)
 DispNext == steps < MaxSteps /\
   \/ (nreq < MaxReq /\ \E fs \in {<<AH>>, <<AH, AP>>, <<AB>>, <<SH, A>>, <<A, AH>>, <<A>>} : AppSubscribe(fs))
-  \/ (nreq < MaxReq /\ \E fs \in {<<AH>>, <<AB, AP>>} : AppUnsubscribe(fs))
+  \/ (nreq < MaxReq /\ \E fs \in {<<AH>>, <<AB, AP>>, <<AB, A>>, <<A, AB>>} : AppUnsubscribe(fs))    \* also filters never subscribed next to subscribed ones
   \/ \E r \in 1..nreq, cs \in {<<0>>, <<128>>, <<0, 1>>, <<128, 2>>} :
         ((\E i \in 1..Len(sb) : sb[i].r = r /\ Len(sb[i].fs) = Len(cs)) /\ PeerSuback(r, cs))
   \/ \E r \in 1..nreq : PeerUnsuback(r)
@@ -47,4 +47,15 @@ DispNext == steps < MaxSteps /\
   \/ \E t \in {AB, <<"sport">>} : PeerPublish2(t, 12, "y", FALSE) \/ PeerPublish2(t, 12, "z", TRUE)
   \/ PeerPubrel(12)
 DispSpec == Init /\ [][DispNext]_vars
+
+(* C20, the local subscription tree over EVERY history of subscribe / unsubscribe requests of a given length (requests
+   naming filters the tree knows and filters it does not, repeated filters, any order), observed by one probe publish
+   at the end: what the tree has become is implementation state that one witness per transition does not pin down   *)
+TreeMut == \/ (nreq < MaxReq /\ \E fs \in {<<A>>, <<AB>>, <<A, AB>>, <<AH>>} : AppSubscribe(fs))
+           \/ (nreq < MaxReq /\ \E fs \in {<<A>>, <<AB, A>>, <<A, AB>>, <<AH, AB>>, <<AB, AB>>} : AppUnsubscribe(fs))
+           \/ \E r \in 1..nreq, cs \in {<<0>>, <<0, 1>>} :
+                 ((\E i \in 1..Len(sb) : sb[i].r = r /\ Len(sb[i].fs) = Len(cs)) /\ PeerSuback(r, cs))
+           \/ \E r \in 1..nreq : PeerUnsuback(r)
+TreeLastNext == steps < MaxSteps /\ IF steps < MaxSteps - 1 THEN TreeMut ELSE \E t \in {A, AB} : PeerPublish(t, 0, 11, "x")
+TreeLastSpec == Init /\ [][TreeLastNext]_vars
 =============================================================================
